@@ -73,3 +73,45 @@ Theorem C03_ohp : forall macA macB cA cB nowB nowA ingA k p0 e p1 d1 e2 p2 d2 re
 Proof. exact Scion.Props.C12.C12_reverse_accepted. Qed.
 Print Assumptions C03_ohp.
 
+(** Non-vacuity of [C03_epic]: its hypothesis "the EPIC packet is delivered" is satisfiable.  On the
+    topology and path of C02's / C03's example (leaf 20 - core 10 with two border routers - leaf
+    30), with a 16-byte toy MAC whose first 6 bytes are the hop-field MAC, an EPIC header whose
+    validation fields are what the toy EPIC MAC returns, and a time inside the freshness window,
+    the walk with the EPIC processing visits four routers and delivers to the host; with a
+    wrong validation field the packet is discarded in the core AS (at its first router, where the
+    penultimate hop field becomes current). *)
+Definition epic_full (k s ts e i g : N) : list N := [k; s; ts; e; i; g; 1;2;3;4;5;6;7;8;9;10].
+Definition epic_topo : topology :=
+  [ mkAs 10 7 2 [mkNif 1 Child 20 1 0 true; mkNif 2 Child 30 1 1 true] [] 0 0;
+    mkAs 20 8 1 [mkNif 1 Parent 10 1 0 true] [] 0 0;
+    mkAs 30 9 1 [mkNif 1 Parent 10 2 0 true] [] 0 0 ].
+Definition epic_toy k s ts e i g := firstn 6 (epic_full k s ts e i g).
+Definition epic_prov : prov :=
+  let ts := 1000 in
+  let u0 := epic_toy 7 5 ts 63 0 1 in let bu1 := N.lxor 5 (mac_prefix u0) in
+  let u1 := epic_toy 8 bu1 ts 63 1 0 in
+  let d0 := epic_toy 7 9 ts 63 0 2 in let bd1 := N.lxor 9 (mac_prefix d0) in
+  let d1 := epic_toy 9 bd1 ts 63 1 0 in
+  of_slices
+    [ mkSl KIntra false false ts [mkPh 20 1 0 63 u1 bu1; mkPh 10 0 1 63 u0 5];
+      mkSl KIntra true false ts [mkPh 10 0 2 63 d0 9; mkPh 30 1 0 63 d1 bd1] ].
+Definition epic_pp : pparams := mkPP 20 30 0 0 [10; 0; 0; 2] [10; 0; 0; 1] 8 (Some 4242).
+Definition epic_now := 1001000000000.
+Definition epic_hdr := EPIC.mkEpic 0 0 [1;2;3;4] [1;2;3;4].
+Definition epic_walk (vf : list N) :=
+  let q := render epic_prov epic_pp 0 false in
+  match start_loc epic_topo q with
+  | Some l => Some (MNW.run_with (MNW.epic_proc (fun k s ts e i g => Some (epic_full k s ts e i g))
+                                     (fun _ _ => Some vf) epic_now epic_hdr) epic_topo (fuel_for q) l q)
+  | None => None
+  end.
+
+Example C03_epic_example :
+  let mac := fun k s ts e i g => firstn 6 (epic_full k s ts e i g) in
+  good mac epic_topo epic_prov /\ endpoints_ok epic_topo epic_prov epic_pp = true /\
+  all_unexpired epic_now epic_prov = true /\ reply_ok epic_pp 0 [10; 0; 0; 2] (Some 5000) = true /\
+  option_map snd (epic_walk [1; 2; 3; 4]) = Some (Delivered 30 0 [10; 0; 0; 2] 4242) /\
+  option_map (fun w => length (fst w)) (epic_walk [1; 2; 3; 4]) = Some 4%nat /\
+  option_map snd (epic_walk [9; 9; 9; 9]) = Some (Stopped 10 0 KDiscard).
+Proof. vm_compute. repeat split; reflexivity. Qed.
+
